@@ -40,7 +40,7 @@ def affected_props(wd):
     tmp = wd + "/trout"; shutil.rmtree(tmp, ignore_errors=True); os.makedirs(tmp)
     changed, allf = set(), {}
     blk = re.compile(r"^-- BEGIN (.+?)\n(.*?)^-- END ", re.S | re.M)
-    for sfx in ("", "2", "3", "4", "5a", "5b", "6a", "6b", "6c", "6d"):
+    for sfx in ("", "2", "3", "4", "5a", "5b", "6a", "6b", "6c", "6d", "7"):
         com = "%s/lean/JsonbModel/Generated/Translated%s.lean" % (ROOT, sfx)
         env = "VERIF_REPO=%s/repo RS2LEAN%s_OUT=%s/T%s.lean RS2LEAN%s_PREV=%s" % (wd, sfx.upper(), tmp, sfx, sfx.upper(), com)
         rc, out = sh("%s python3 tools/rs2lean%s.py 2>/dev/null | tail -n 1" % (env, sfx), ROOT)
